@@ -706,6 +706,21 @@ func c06_4(c *core.Ctx, p *core.Prog) {
 		return strings.HasSuffix(core.AccessPath(fa.X), "."+pendingF.Name()+"[0]")
 	}
 	nPartial, nComplete := 0, 0
+	// a complete arm may also record the head entry as it stands (a copy of pending[0]): its count is the head's count
+	for k, cp := range headCopies(fn, pendingF) {
+		nComplete++
+		removed := false
+		core.EachInstr(fn, func(i ssa.Instruction) {
+			if s, ok := storesTo(i, pendingF); ok && (s.Block() == cp.Block() || core.Reachable(fn, cp, s)) {
+				if sl, ok := s.Val.(*ssa.Slice); ok && (sl.High != nil || sl.Low != nil) {
+					removed = true
+				}
+			}
+		})
+		// the copy carries the head's remaining count: nothing may have been taken off it on the way here
+		c.Check(removed, fmt.Sprintf("complete#copy%d", k+1), p.Pos(cp.Pos()), core.FuncName(fn), "complete arm records a copy of the head entry and removes the head",
+			"the complete arm records the head entry but does not remove it from the pending list: the same caller is answered again by the next batch")
+	}
 	for k, t := range tups {
 		pos := p.Pos(t.al.Pos())
 		if isHeadCount(t.count) {
@@ -825,6 +840,30 @@ func c06_4(c *core.Ctx, p *core.Prog) {
 		c.Undecided("arms", p.Pos(fn.Pos()), core.FuncName(fn), fmt.Sprintf("expected a partial and a complete arm, found %d/%d", nPartial, nComplete))
 	}
 
+}
+
+// headCopies returns the loads of the whole head entry pending[0] whose value is stored on (recorded as a contributor).
+func headCopies(fn *ssa.Function, pendingF *types.Var) []*ssa.UnOp {
+	var out []*ssa.UnOp
+	core.EachInstr(fn, func(i ssa.Instruction) {
+		u, ok := i.(*ssa.UnOp)
+		if !ok || u.Op != token.MUL {
+			return
+		}
+		if _, isStruct := u.Type().Underlying().(*types.Struct); !isStruct || len(ctxFields(u.Type())) == 0 {
+			return
+		}
+		if _, isIdx := u.X.(*ssa.IndexAddr); !isIdx || !strings.HasSuffix(core.AccessPath(u.X), "."+pendingF.Name()+"[0]") {
+			return
+		}
+		for _, r := range core.Referrers(u) {
+			if st, ok := r.(*ssa.Store); ok && st.Val == ssa.Value(u) {
+				out = append(out, u)
+				return
+			}
+		}
+	})
+	return out
 }
 
 func c06_5(c *core.Ctx, p *core.Prog) {
